@@ -38,6 +38,8 @@ def run(ctx):
             ctx.violation("suspend/resume scenario hung", {"cmd": cmd}, signature="c06:hang")
         elif any("VIOL" in l for l in head):
             ctx.violation("suspend/resume oracle: " + head[0][:300], {"cmd": cmd}, signature="c06:" + head[0][12:70])
+        elif not any(l.startswith("ORACLE ok") for l in head):
+            ctx.violation("suspend/resume harness died without a verdict (exit status %s): the library trapped or crashed (its own over-resume / corrupt-state check)" % rc, {"cmd": cmd}, signature="c06:crash")
         else:
             m = re.search(r"items=(\d+)", " ".join(head)); sc += int(m.group(1)) if m else 0
         paths.append(path)
